@@ -191,3 +191,134 @@ func c14R9(c *Ctx, r *Report) {
 		"every exit has either found push == false or called pushUpdate",
 		"an option change can leave handleOptionUpdate without being pushed although push is set (another condition decides): subscribers of the config database miss the write", c.pathString(p)...)
 }
+
+// resolvedCallees: the repo functions a call instruction may invoke (static callee, or the VTA call graph's targets for interface/function-value calls).
+func (c *Ctx) resolvedCallees(fn *ssa.Function, ci ssa.CallInstruction) []*ssa.Function {
+	if sc := staticCallee(ci.Common()); sc != nil {
+		return []*ssa.Function{sc}
+	}
+	var out []*ssa.Function
+	if n := c.CallGraph().Nodes[fn]; n != nil {
+		for _, e := range n.Out {
+			if e.Site == ci && e.Callee != nil && e.Callee.Func != nil {
+				out = append(out, e.Callee.Func)
+			}
+		}
+	}
+	return out
+}
+
+// mayReach: the repo functions from which an instruction satisfying pred is
+// reachable through resolved calls (fixpoint over the call graph).
+func (c *Ctx) mayReach(pred func(ssa.Instruction) bool) map[*ssa.Function]bool {
+	set := map[*ssa.Function]bool{}
+	for _, fn := range c.allFuncs {
+		if funcHas(fn, 0, pred) {
+			set[fn] = true
+		}
+	}
+	for changed := true; changed; {
+		changed = false
+		for _, fn := range c.allFuncs {
+			if set[fn] {
+				continue
+			}
+			hit := false
+			eachInstr(fn, func(in ssa.Instruction) {
+				if hit {
+					return
+				}
+				if mc, ok := in.(*ssa.MakeClosure); ok && set[mc.Fn.(*ssa.Function)] {
+					hit = true
+				}
+				if ci, ok := in.(ssa.CallInstruction); ok {
+					for _, cal := range c.resolvedCallees(fn, ci) {
+						if set[cal] {
+							hit = true
+						}
+					}
+				}
+			})
+			if hit {
+				set[fn] = true
+				changed = true
+			}
+		}
+	}
+	return set
+}
+
+// c02R13: the final flush (threshold 0) writes every pending record: the only
+// conditions under which flushWriteCache returns without writing are an empty
+// write cache and "fill ratio strictly below the threshold".
+func c02R13(c *Ctx, r *Report) {
+	const rule = "C02-R13"
+	r.SetFloor(rule, 2)
+	fn := c.Func("database.(*Interface).flushWriteCache")
+	if fn == nil {
+		r.Undecided(rule, "database.(*Interface).flushWriteCache", "anchor function missing")
+		return
+	}
+	isThr := func(v ssa.Value) bool { p, ok := v.(*ssa.Parameter); return ok && p.Name() == "percentThreshold" }
+	isRatio := func(v ssa.Value) bool { return !isThr(v) }
+	below := relGuards("fill ratio < threshold", isRatio, isThr, func(a, b int64) bool { return a < b })
+	isLen := func(v ssa.Value) bool {
+		call, ok := v.(*ssa.Call)
+		return ok && calleeName(&call.Call) == "builtin.len"
+	}
+	empty := cmpGuards("len(writeCache) == 0", isLen, func(x int64) bool { return x <= 0 }, 0)
+	isWrite := isCallInstrTo("database.Interface.PutMany")
+	r.Check(funcHas(fn, 0, isWrite), rule, fnKey(fn)+" / writes through PutMany", "the write cache is written with a batch put", "flushWriteCache no longer writes the cached records to storage")
+	p := ReachFromAvoiding(fn, nil, isExit, append(append([]Guard{}, below...), empty...), isWrite)
+	r.Check(p == nil, rule, fnKey(fn)+" / returns without writing only when empty or strictly below the threshold",
+		"every exit that skipped the write found the cache empty or the fill ratio strictly below the threshold (so threshold 0 - FlushCache - always writes)",
+		"flushWriteCache can skip the write on another condition (e.g. ratio <= threshold): FlushCache (threshold 0) then leaves records of a sparsely filled write cache unwritten", c.pathString(p)...)
+	// FlushCache passes 0
+	if fc := c.Func("database.(*Interface).FlushCache"); fc != nil {
+		for _, ci := range callsIn(fc, "database.Interface.flushWriteCache") {
+			args := callArgs(ci.Common())
+			v, isC := constInt(args[len(args)-1])
+			r.Check(isC && v == 0, rule, fnKey(fc)+" / flushes with threshold 0", "FlushCache asks for an unconditional flush", "FlushCache passes a non-zero threshold: pending writes can stay in the cache", c.Pos(ci.Pos()))
+		}
+	}
+}
+
+// c02R14: once Interface.Delete marked the record deleted, nothing that may
+// rewrite Meta.Deleted (expiry setters, Reset - e.g. through Options.Apply)
+// runs before the record is written.
+func c02R14(c *Ctx, r *Report) {
+	const rule = "C02-R14"
+	r.SetFloor(rule, 1)
+	fn := c.Func("database.(*Interface).Delete")
+	if fn == nil {
+		r.Undecided(rule, "database.(*Interface).Delete", "anchor function missing")
+		return
+	}
+	writers := c.mayReach(isFieldStore("database/record.Meta", "Deleted"))
+	del := c.Func("database/record.(*Meta).Delete")
+	marks := callsIn(fn, "database/record.Meta.Delete")
+	if len(marks) == 0 || del == nil {
+		r.Bad(rule, fnKey(fn)+" / marks the record deleted", "Interface.Delete no longer calls Meta.Delete")
+		return
+	}
+	isStorageWrite := isCallInstrTo("database.Controller.Put", "database.Controller.PutMany")
+	for i, m := range marks {
+		var culprit string
+		after := ReachInstr(fn, m, func(in ssa.Instruction) bool {
+			ci, ok := in.(ssa.CallInstruction)
+			if !ok || in == ssa.Instruction(m) || isStorageWrite(in) {
+				return false
+			}
+			for _, cal := range c.resolvedCallees(fn, ci) {
+				if cal != del && writers[cal] && short(cal.Pkg.Pkg.Path()) != "database/storage" && !strings.HasPrefix(short(cal.Pkg.Pkg.Path()), "database/storage/") {
+					culprit = fnKey(cal)
+					return true
+				}
+			}
+			return false
+		}, isStorageWrite)
+		r.Check(after == nil, rule, fmt.Sprintf("%s / deletion mark #%d survives until the write", fnKey(fn), i+1),
+			"no function that may rewrite Meta.Deleted is called after Meta.Delete()",
+			"after Meta.Delete() the record passes through "+culprit+", which may overwrite Meta.Deleted (an 'always set expiry' option resets it to 0 or a negative TTL): the delete is stored as a live record", posOf(c, after))
+	}
+}
